@@ -684,6 +684,20 @@ def m3(ctx, al, ntrees, nsys, length):
             ctx.violation("C05:sys-raises", dict(info, raised="%s: %s" % (type(ex).__name__, str(ex)[:160])))
             continue
         info["shared_denominator"] = tf["d"] == tg["d"] and tf["d"] != {0: F(1)}
+        try:
+            for key, mk in (("nesto", lambda: al.CascadeFilter(al.ParallelFilter(Fo, Go), Fo)),
+                            ("nest2o", lambda: al.ParallelFilter(al.CascadeFilter(Fo, Go), Go))):
+                val = V(mk()(xs(), zero=0))
+                if encodable({"v": val}):
+                    rec[key] = val
+        except Bad as ex:
+            ctx.count(1)
+            ctx.violation("C05:sys-inexact", dict(info, why="nested banks: " + str(ex)))
+            continue
+        except Exception as ex:
+            ctx.count(1)
+            ctx.violation("C05:sys-raises", dict(info, raised="nested banks: %s: %s" % (type(ex).__name__, str(ex)[:160])))
+            continue
         if not encodable(rec):
             unjudged[0] += 1              # beyond TLC's integers: not judged (the screen above is a heuristic)
             continue
